@@ -447,4 +447,4 @@ func hasBoards(ss []stmt) bool {
 	return false
 }
 
-func hx16(t *rapid.T) int { return rapid.IntRange(3, 24).Draw(t, "budget") }
+func hx16(t *rapid.T) int { return rapid.IntRange(3, 20).Draw(t, "budget") }
